@@ -15,6 +15,7 @@ import KafkaVerif.Lemmas.ReaderFront
 import KafkaVerif.Lemmas.ByteLayout
 import KafkaVerif.Lemmas.ReaderRun
 import KafkaVerif.Lemmas.PullReader
+import KafkaVerif.Lemmas.ReaderWorld
 
 namespace KV.C02
 
@@ -440,6 +441,59 @@ example : GoodRun {} [(3, 1), (4, 2), (7, 3)] { offset := -2 }
   · intro r hr; simp at hr ⊢; rcases hr with rfl | rfl | rfl <;> simp
   · intro r hr x hx; simp at hr hx ⊢; subst hx; rcases hr with rfl | rfl | rfl <;> simp
   · intro r hr; simp at hr ⊢; rcases hr with rfl | rfl | rfl <;> simp
+
+/-! ### end to end: the loop, the broker, the bytes, the decoder as written
+
+`Model/ReaderWorld.lean` computes the outcomes of the `read` calls instead of assuming them: the partition stores the
+layout `items`; a fetch at conn offset `q` is answered under the fetch contract (`serve`: the items from the one
+containing `q`, the first one whole, then as far as the byte budget reaches) or the connection is lost after any number
+`n` of bytes; what arrives is read by the statement-level model of message_reader.go / batch.go (`Pull.readAll`); the
+result is the event fed to `rstep`.  All other events (sleeps, initialize, partition errors, I/O errors, cancellation)
+stay free.  The one assumption left (`Env.ok`): a first offset reported by the broker is not above a stored record. -/
+
+/-- `reader_end_to_end`: for every well-formed layout (formats 0/1/2, compression, holes, empty batches), every start
+offset and **every** sequence of environment moves — byte budgets, high watermarks, deadline expiries, connections lost
+at any byte, partition errors, reconnects, backoff sleeps — what `(*reader).run` has pushed into `r.msgs` is strictly
+increasing and is exactly the stored records between the resolved start offset and the loop's `offset`. -/
+theorem reader_end_to_end (cfg : RCfg) (items : List Item) (nb : Int) (hnb : 0 ≤ nb) (hwf : LWF nb items) (o0 : Int)
+    (ho : -2 ≤ o0) (xs : List Env) (hx : ∀ x ∈ xs, x.ok items) :
+    let s := worldRun cfg items { offset := o0 } xs
+    s.msgs.Pairwise (fun a b => a.1 < b.1) ∧
+    (s.start = none → s.msgs = []) ∧
+    (∀ st, s.start = some st →
+      (∀ r ∈ s.msgs, r ∈ allRecords items ∧ st ≤ r.1 ∧ r.1 < s.offset) ∧
+      (∀ r ∈ allRecords items, st ≤ r.1 → r.1 < s.offset → r ∈ s.msgs)) := by
+  have h := rinv_world_run cfg items nb hnb hwf xs _ (rinv_init (allRecords items) o0 ho) hx
+  exact ⟨h.sorted, fun h0 => (h.nostart h0).1, fun st hst => ⟨(h.bounds st hst).2.2.1, (h.bounds st hst).2.2.2⟩⟩
+
+/-- … and whenever the loop holds a connection whose position has passed the last stored record, every stored record
+from the start offset on has been delivered (nothing can still be skipped): `offset ≤ connOff` with no stored record
+in between -/
+theorem reader_end_to_end_complete (cfg : RCfg) (items : List Item) (nb : Int) (hnb : 0 ≤ nb) (hwf : LWF nb items) (o0 : Int)
+    (ho : -2 ≤ o0) (xs : List Env) (hx : ∀ x ∈ xs, x.ok items)
+    (hr : (worldRun cfg items { offset := o0 } xs).phase = .reading)
+    (hall : ∀ r ∈ allRecords items, r.1 < (worldRun cfg items { offset := o0 } xs).connOff) :
+    ∀ st, (worldRun cfg items { offset := o0 } xs).start = some st →
+      ∀ r ∈ allRecords items, st ≤ r.1 → r ∈ (worldRun cfg items { offset := o0 } xs).msgs := by
+  have h := rinv_world_run cfg items nb hnb hwf xs _ (rinv_init (allRecords items) o0 ho) hx
+  intro st hst r hrl h1
+  obtain ⟨_, _, hgap⟩ := h.conn hr
+  by_cases hlt : r.1 < (worldRun cfg items { offset := o0 } xs).offset
+  · exact (h.bounds st hst).2.2.2 r hrl h1 hlt
+  · exact absurd (hgap r hrl (by omega) (hall r hrl)) id
+
+/-- one fetch of the loop makes progress: with an open connection, data at or after its position and a high watermark
+different from it, the connection's position moves forward (so finitely many fault-free fetches pass any record) -/
+theorem reader_end_to_end_progress (cfg : RCfg) (items : List Item) (nb : Int) (hnb : 0 ≤ nb) (hwf : LWF nb items) (s : RR)
+    (hp : s.phase = .reading) (hs : s.slept = true) (hq : 0 ≤ s.connOff) (b : Nat) (hwm : Int) (e : Bool)
+    (hne : hwm ≠ s.connOff) (hdata : dropBefore s.connOff items ≠ []) :
+    s.connOff < (rstep cfg s (worldEvent items s (.fetch b hwm e))).connOff :=
+  world_fetch_progress cfg items nb hnb hwf s hp hs hq b hwm e hne hdata
+
+/-- a run with a connection lost in the middle of a compressed batch and a re-initialisation -/
+example : (worldRun {} [.b2 3 4 false 24 [(0, 1, 12), (1, 2, 12)], .b2 5 9 true 30 [(0, 3, 20), (4, 4, 20)]] { offset := -2 }
+    [.initOk 3 10, .sleepOk, .fetch 10 10 false, .sleepOk, .lost 70 10 false, .sleepOk, .initOk 3 10, .sleepOk,
+     .fetch 1 10 true]).msgs = [(3, 1), (4, 2), (5, 3), (9, 4)] := by decide
 
 /-! ### the executable loop model of the oracle (Model/ReaderLoop.lean `onAnswer`) is this LTS
 
